@@ -403,6 +403,7 @@ def component(tier='quick', seed=0, known=()):
             'skipped': skipped,
             'samples': [results[0]['case'], results[len(results) // 2]['case'], results[-1]['case']],
             'failure_classes': [[list(k), v] for k, v in counts.items()][:12],
+            'notes': 'worker processes lower the S2K iteration-count octet that PGPKey.protect uses (HashAlgorithm._tuned_count, a data attribute: 255 -> 96) to keep protect/unlock cheap; no pgpy code is replaced',
             'violations': violations,
             'known_hits': known_hits}
 
